@@ -658,3 +658,97 @@ Proof.
       try (vm_compute in Nb; discriminate); try (vm_compute; intros X; discriminate).
   - eexists. split; [vm_compute; reflexivity|]. intros X. discriminate.
 Qed.
+
+(* ---------- layers ---------- *)
+
+Section LayerInd.
+  Variable P : layer -> Prop.
+  Hypothesis H : forall bases ops, Forall P bases -> P (Layer bases ops).
+  Fixpoint layer_ind' (l : layer) : P l :=
+    match l with
+    | Layer bases ops =>
+        H bases ops ((fix go (bs : list layer) : Forall P bs :=
+                        match bs with
+                        | [] => Forall_nil P
+                        | b :: t => Forall_cons b (layer_ind' b) (go t)
+                        end) bases)
+    end.
+End LayerInd.
+
+Lemma accumulate_unfold bases ops :
+  accumulate (Layer bases ops) = (do m <- merge_with accumulate bases []; run ops m).
+Proof. reflexivity. Qed.
+
+(* side conditions of a whole tree of layers: those of every base, and those of the layer's own trace on
+   the map its bases merge into *)
+Definition bases_safe (safe_base : layer -> Prop) (ops : list op) : list layer -> rmap -> Prop :=
+  fix go (bs : list layer) (m : rmap) {struct bs} : Prop :=
+    match bs with
+    | [] => safe_trace ops m
+    | b :: t => safe_base b /\ forall mb m', accumulate b = Ok mb -> append_all mb m = Ok m' -> go t m'
+    end.
+
+Fixpoint layer_safe (l : layer) : Prop :=
+  match l with
+  | Layer bases ops =>
+      (fix go (bs : list layer) (m : rmap) {struct bs} : Prop :=
+         match bs with
+         | [] => safe_trace ops m
+         | b :: t => layer_safe b /\ forall mb m', accumulate b = Ok mb -> append_all mb m = Ok m' -> go t m'
+         end) bases []
+  end.
+
+Lemma layer_safe_unfold bases ops : layer_safe (Layer bases ops) = bases_safe layer_safe ops bases [].
+Proof. reflexivity. Qed.
+
+Lemma merge_inv ops bs : forall m0 m1,
+  Forall (fun b => forall m, layer_safe b -> accumulate b = Ok m -> Inv m) bs ->
+  Inv m0 -> bases_safe layer_safe ops bs m0 -> merge_with accumulate bs m0 = Ok m1 ->
+  Inv m1 /\ safe_trace ops m1.
+Proof.
+  induction bs as [|b t IH]; cbn; intros m0 m1 F I S H.
+  - inv H. auto.
+  - inv F. destruct S as [Sb St].
+    destruct (accumulate b) as [mb| | |] eqn:Eb; cbn in H; try discriminate.
+    destruct (append_all mb m0) as [m'| | |] eqn:Ea; cbn in H; try discriminate.
+    apply (IH m' m1 H3).
+    + eapply append_all_inv; eauto.
+    + apply (St mb m' eq_refl Ea).
+    + exact H.
+Qed.
+
+(* identities stay unique through the accumulation of a whole tree of layers: each layer starts from the
+   empty map, merges its bases with AppendAll (which re-checks) and runs a safe trace *)
+Lemma accumulate_inv : forall l m, layer_safe l -> accumulate l = Ok m -> Inv m.
+Proof.
+  apply (layer_ind' (fun l => forall m, layer_safe l -> accumulate l = Ok m -> Inv m)).
+  intros bases ops F m S H. rewrite layer_safe_unfold in S. rewrite accumulate_unfold in H.
+  destruct (merge_with accumulate bases []) as [m0| | |] eqn:E; cbn in H; try discriminate.
+  destruct (merge_inv ops bases [] m0 F Inv_nil S E) as [I0 S0].
+  eapply run_inv; eauto.
+Qed.
+
+(* non-vacuity: an overlay over two bases, each adding its own prefix, merges and stays unique; the same
+   two bases without distinct prefixes collide in AppendAll *)
+Definition ex_base (p : string) : layer := Layer [] [OAppendAll [ex_dep; ex_cm]; OPrefix p].
+Definition ex_overlay : layer := Layer [ex_base "a-"; ex_base "b-"] [ONamespace "prod"; OSortLegacy].
+
+Example ex_overlay_runs : exists m, accumulate ex_overlay = Ok m /\ List.length m = 4.
+Proof. eexists. split; vm_compute; reflexivity. Qed.
+
+Example ex_overlay_clash : accumulate (Layer [ex_base "a-"; ex_base "a-"] []) = Err.
+Proof. vm_compute. reflexivity. Qed.
+
+Example ex_overlay_safe : layer_safe ex_overlay.
+Proof.
+  assert (B : forall p, layer_safe (ex_base p)).
+  { intros p. cbn [ex_base layer_safe safe_trace safe]. split; [exact I|]. intros m1 H1. vm_compute in H1. inv H1.
+    split; [|intros; exact I].
+    apply uniform_no_prev. intros r Hr. cbn in Hr. in_cases Hr; reflexivity. }
+  unfold ex_overlay. rewrite layer_safe_unfold. cbn [bases_safe].
+  split; [apply B|]. intros mb1 m1 A1 M1. vm_compute in A1. inv A1. vm_compute in M1. inv M1.
+  split; [apply B|]. intros mb2 m2 A2 M2. vm_compute in A2. inv A2. vm_compute in M2. inv M2.
+  cbn [safe_trace safe]. split.
+  { intros r Hr. cbn in Hr. in_cases Hr; reflexivity. }
+  intros m3 H3. split; [exact I|]. intros; exact I.
+Qed.
